@@ -3,7 +3,7 @@
 # Confirms a sub-agent change in its scratch worktree: demo passes pristine, fails with the change,
 # relevant existing tests pass with the change.  Leaves the worktree pristine.
 P=$1; CH=$2; shift 2
-WT=/tmp/seed-$P/wt
+WT=${SEEDROOT:-/tmp/seed}-$P/wt
 demo=$(ls $CH/demo.py $CH/test_demo.py 2>/dev/null | head -1)
 run_demo() { case "$demo" in *test_demo.py) (cd $WT && PYTHONPATH=$WT/src timeout 300 /venv/bin/python -m pytest -q -p no:cacheprovider $demo >/tmp/demo.out 2>&1);; *) (cd $WT && PYTHONPATH=$WT/src timeout 300 /venv/bin/python $demo >/tmp/demo.out 2>&1);; esac; echo $?; }
 git -C $WT checkout -- . ; git -C $WT status --short | grep -v '\.so$' | head -3
